@@ -519,6 +519,22 @@ func (vc *FnVC) checkBackEdge(from, header *ssa.BasicBlock, st *State) {
 		}
 		vc.oblige(st, "inv-preserve", fmt.Sprintf("loop%d/%s", li.ordinal, clauseLabel(inv, i)), t, "invariant preserved: "+inv.Text)
 	}
+	if li.spec != nil {
+		env.bodyLocals = true
+		for i, sc := range li.spec.Steps {
+			t, err := vc.evalBool(env, sc.E)
+			if err != nil {
+				vc.contractError("loop %d step %q: %v", li.ordinal, sc.Text, err)
+				continue
+			}
+			lbl := sc.Name
+			if lbl == "" {
+				lbl = fmt.Sprintf("step%d", i+1)
+			}
+			vc.oblige(st, "step", fmt.Sprintf("loop%d/%s", li.ordinal, lbl), t, "holds at the end of every iteration: "+sc.Text)
+		}
+		env.bodyLocals = false
+	}
 	if li.spec != nil && li.spec.Decreases != nil && li.decr0 != "" {
 		if t, err := vc.evalTerm(env, li.spec.Decreases.E); err == nil {
 			vc.oblige(st, "decreases", fmt.Sprintf("loop%d", li.ordinal), smtAnd(sx("<", t.S, li.decr0), sx("<=", "0", li.decr0)), "variant decreases and is bounded: "+li.spec.Decreases.Text)
@@ -537,6 +553,83 @@ func (vc *FnVC) setEdge(from, to *ssa.BasicBlock, st *State, cond string) {
 	k := [2]int{from.Index, to.Index}
 	vc.edgePC[k] = pc
 	vc.edgeSt[k] = st
+	vc.checkLoopExit(from, to, st, pc)
+}
+
+// checkLoopExit: `exits` clauses of every loop that the edge from -> to leaves by break.
+func (vc *FnVC) checkLoopExit(from, to *ssa.BasicBlock, st *State, pc string) {
+	for h, li := range vc.loops {
+		if li.spec == nil || len(li.spec.Exits) == 0 || !li.blocks[from] || li.blocks[to] || from == h {
+			continue
+		}
+		est := st.clone()
+		est.pc = pc
+		env := vc.envAt(est, li)
+		env.bodyLocals = true
+		vc.curInstr = nil
+		for i, ec := range li.spec.Exits {
+			t, err := vc.evalBool(env, ec.E)
+			if err != nil {
+				vc.contractError("loop %d exits %q: %v", li.ordinal, ec.Text, err)
+				continue
+			}
+			lbl := ec.Name
+			if lbl == "" {
+				lbl = fmt.Sprintf("exits%d", i+1)
+			}
+			vc.oblige(est, "loop-exit", fmt.Sprintf("loop%d/%s", li.ordinal, lbl), t, "holds whenever the loop is left early: "+ec.Text)
+		}
+	}
+}
+
+// checkAts: `at "text" requires E` assertions attached to the current instruction.
+func (vc *FnVC) checkAts(st *State, in ssa.Instruction) {
+	if vc.unit == nil || len(vc.unit.Ats) == 0 {
+		return
+	}
+	switch in.(type) {
+	case *ssa.DebugRef, *ssa.Phi, *ssa.Jump, *ssa.If:
+		return
+	}
+	var txt string
+	if v, ok := in.(ssa.Value); ok {
+		txt = vc.srcText(v, in)
+	} else {
+		txt = vc.srcText(nil, in)
+	}
+	for _, a := range vc.unit.Ats {
+		if !strings.Contains(txt, a.Text) {
+			continue
+		}
+		key := fmt.Sprintf("%p|%s", in, a.Text)
+		if vc.atDone == nil {
+			vc.atDone = map[string]bool{}
+		}
+		if vc.atDone[key] {
+			continue
+		}
+		vc.atDone[key] = true
+		// the innermost loop containing the instruction gives the meaning of loop variable names
+		var li *loopInfo
+		for _, l := range vc.loops {
+			if l.blocks[in.Block()] && (li == nil || len(l.blocks) < len(li.blocks)) {
+				li = l
+			}
+		}
+		env := vc.envAt(st, li)
+		env.bodyLocals = true
+		t, err := vc.evalBool(env, a.C.E)
+		if err != nil {
+			vc.contractError("at %q: %v", a.Text, err)
+			continue
+		}
+		lbl := a.C.Name
+		if lbl == "" {
+			lbl = "assert"
+		}
+		vc.oblige(st, "at", a.Text+"/"+lbl, t, "assertion at "+a.Text+": "+a.C.Text)
+		vc.atUsed = append(vc.atUsed, a.Text)
+	}
 }
 
 func (vc *FnVC) runBlock(b *ssa.BasicBlock, st *State) {
@@ -563,6 +656,7 @@ func (vc *FnVC) runBlock(b *ssa.BasicBlock, st *State) {
 			}
 			return
 		default:
+			vc.checkAts(st, in)
 			vc.instr(st, in)
 		}
 	}
